@@ -319,3 +319,52 @@ package executor
 //@   loop 1 invariant !called(commit) && !called(rollback) && called(begin) && ret1(execTxOne, 0) == nil
 //@   loop 1 invariant called(execTxOne, 1) ==> ret1(execTxOne, 1) == nil
 //@   loop 2 invariant true
+
+// ---- C14: what the local-index plugins add for a block is exactly what they remove ---------------------
+// txindex: add and remove both go through getTx (a deterministic function of executor, transaction,
+// receipt and position); removal emits the same records, in the same order, with every value nil
+//@ trusted func getTx
+//@   frame allocates
+//@   opt functional=yes
+//@   ensures forall k :: 0 <= k && k < len(result) ==> result[k] != nil
+//@ pure func (*github.com/33cn/chain33/types.Block).Hash
+//@ pure func github.com/33cn/chain33/types.TotalFeeKey
+//@ pure func github.com/33cn/chain33/types.Encode
+
+//@ func (*txindexPlugin).ExecLocal [C14]
+//@   opt safety=assumed overflow=assumed
+//@   assert@call getTx: arg0 == executor && arg1 == data.Block.Txs[i] && arg2 == data.Receipts[i] && arg3 == i
+//@   assert@call builtin.append: arg1 == ret(getTx)
+//@   ensures result1 == nil
+//@   loop 0 invariant 0 <= i
+
+//@ func (*txindexPlugin).ExecDelLocal [C14]
+//@   opt safety=assumed overflow=assumed
+//@   assert@call getTx: arg0 == executor && arg1 == data.Block.Txs[i] && arg2 == data.Receipts[i] && arg3 == i
+//@   assert@call builtin.append: arg1 == ret(getTx) && forall m :: 0 <= m && m < len(arg1) ==> isnil(arg1[m].Value)
+//@   ensures result1 == nil
+//@   loop 0 invariant 0 <= i
+//@   loop 1 invariant kvdel == ret(getTx) && forall m :: 0 <= m && m <= rangeindex && m < len(kvdel) ==> isnil(kvdel[m].Value)
+//@   loop 1 invariant forall m :: 0 <= m && m < len(kvdel) ==> kvdel[m] != nil
+
+// fee totals: the record of a block is keyed by the block's hash when added and when removed
+//@ func saveFee [C14]
+//@   opt safety=assumed overflow=assumed
+//@   ensures result1 == nil ==> result0 != nil && result0.Key == ret(TotalFeeKey, 1)
+//@   assert@call TotalFeeKey#0: arg0 == parentHash
+//@   assert@call TotalFeeKey#1: arg0 == hash
+//@   ensures result1 == nil ==> result0 != nil && result0.Key == ret(TotalFeeKey, 1)
+//@ func delFee [C14]
+//@   ensures result1 == nil && result0 != nil && result0.Key == ret(TotalFeeKey) && isnil(result0.Value)
+//@   assert@call TotalFeeKey: arg0 == hash
+//@ func (*feePlugin).ExecLocal [C14]
+//@   opt safety=assumed overflow=assumed
+//@   assert@call saveFee: arg3 == ret(Hash) && arg2 == data.Block.ParentHash
+//@   assert@call Block).Hash: arg0 == data.Block
+//@   ensures result1 == nil ==> len(result0) == 1 && result0[0] == ret0(saveFee)
+//@   loop 0 invariant 0 <= i
+//@ func (*feePlugin).ExecDelLocal [C14]
+//@   opt safety=assumed overflow=assumed
+//@   assert@call delFee: arg1 == ret(Hash)
+//@   assert@call Block).Hash: arg0 == data.Block
+//@   ensures result1 == nil ==> len(result0) == 1 && result0[0] == ret0(delFee)
